@@ -17,7 +17,7 @@ NS = (f'xmlns:w="{W}" xmlns:r="http://schemas.openxmlformats.org/officeDocument/
       'xmlns:v="urn:schemas-microsoft-com:vml" '
       'xmlns:m="http://schemas.openxmlformats.org/officeDocument/2006/math"')
 
-SUPPORTS = {"itbx", "r.acc", "r.num", "p", "h", "ul", "ul.nested", "tbl", "tbl.nested", "cell.multi", "sdt", "tbx", "r", "tab", "br", "sp",
+SUPPORTS = {"itbx", "r.acc", "r.num", "p", "h", "ul", "ul.nested", "tbl", "tbl.nested", "tbl.nested.wide", "cell.multi", "sdt", "tbx", "r", "tab", "br", "sp",
             "a", "ins", "del", "isdt", "fn", "cm", "header", "footer"}
 
 
